@@ -25,7 +25,7 @@ extern "C" void* __libc_realloc(void*, size_t); extern "C" void* __libc_memalign
 
 namespace {
 
-enum { MAXT = 8, MAXPOINTS = 60000, MAXW = 8192, MAXRACE = 48, MAXFAIL = 16, MAXRANGES = 16, OUTCOME_LEN = 2000 };
+enum { MAXT = 6, MAXPOINTS = 60000, MAXW = 8192, MAXRACE = 48, MAXFAIL = 16, MAXRANGES = 16, OUTCOME_LEN = 2000 };
 enum State { ST_UNUSED, ST_RUNNABLE, ST_BLOCKED, ST_YIELD, ST_FINISHED };
 enum Kind { K_NONE, K_READ, K_WRITE, K_AREAD, K_AWRITE, K_ARMW, K_LOCK, K_UNLOCK, K_CREATE, K_JOIN, K_GUARD, K_COND, K_EXIT, K_YIELD, K_START };
 
@@ -45,7 +45,7 @@ struct Shared {                       // parent <-> child
    int n_newwatch; uintptr_t newwatch[256];
    char outcome[OUTCOME_LEN]; int outcome_len;
    int done, deadlock, divergence; char note[300];
-   uint64_t accesses; int nthreads; int switches_at_watched;
+   uint64_t accesses, stack_accesses_skipped; int nthreads; int switches_at_watched;
 };
 Shared* sh = nullptr;
 
@@ -60,9 +60,10 @@ struct RangeReg { uintptr_t lo, hi; } ranges[MAXRANGES]; int nranges = 0;
 uintptr_t st_lo, st_hi; uint8_t* st_track = nullptr;       // per static granule: accessor mask (bits 0..6) | written (bit 7)
 struct DsoRange { uintptr_t lo, hi; } dsos[64]; int ndso = 0;
 
-// shadow memory: per byte
-struct Shadow { uintptr_t addr; uint32_t wclk; uint32_t rclk[MAXT]; uintptr_t wpc; uintptr_t rpc; uint8_t wtid, watomic, ratomic_mask, used; };
-enum { SHBITS = 20, SHSIZE = 1 << SHBITS };
+// shadow memory: one entry per 8-byte word with byte masks (a conflict needs overlapping bytes). Consecutive words map to
+// consecutive entries (blocks of 64 words) so that a child touches few shadow pages.
+struct Shadow { uintptr_t key; uint32_t wclk; uint32_t wpc, rpc; uint32_t rclk[MAXT]; uint8_t rmask[MAXT]; uint8_t wtid, watomic, wmask, ratomic_mask, used; };
+enum { SHBITS = 18, SHSIZE = 1 << SHBITS, SHBLOCK = 64 };
 Shadow* shadow = nullptr;
 struct Sync { const void* addr; VC vc; int owner; int used; int waiting_cond; };
 enum { SYBITS = 12, SYSIZE = 1 << SYBITS };
@@ -71,14 +72,15 @@ Sync* syncs = nullptr;
 long futex(int* addr, int op, int val) { return syscall(SYS_futex, addr, op, val, nullptr, nullptr, 0); }
 void die(const char* msg) { if (sh) { snprintf(sh->note, sizeof sh->note, "%s", msg); sh->done = 2; } fprintf(stderr, "xsched: %s\n", msg); _exit(70); }
 
-Shadow* shadow_of(uintptr_t a) {
-   uintptr_t h = (a * 0x9E3779B97F4A7C15ull) >> (64 - SHBITS);
-   for (int probe = 0; probe < SHSIZE; ++probe) { Shadow* s = &shadow[(h + probe) & (SHSIZE - 1)]; if (!s->used) { s->used = 1; s->addr = a; s->wtid = 0xff; return s; } if (s->addr == a) return s; }
+inline size_t shadow_home(uintptr_t w) { uintptr_t blk = w / SHBLOCK; uintptr_t h = (blk * 0x9E3779B97F4A7C15ull) >> (64 - (SHBITS - 6)); return (size_t)(h * SHBLOCK + (w % SHBLOCK)); }
+Shadow* shadow_of(uintptr_t a) {            // a = address of any byte of the word
+   uintptr_t w = a >> 3; size_t h = shadow_home(w);
+   for (int probe = 0; probe < SHSIZE; probe += SHBLOCK) { Shadow* s = &shadow[(h + probe) & (SHSIZE - 1)]; if (!s->used) { s->used = 1; s->key = w; s->wtid = 0xff; return s; } if (s->key == w) return s; }
    die("shadow table full"); return nullptr;
 }
 Shadow* shadow_find(uintptr_t a) {
-   uintptr_t h = (a * 0x9E3779B97F4A7C15ull) >> (64 - SHBITS);
-   for (int probe = 0; probe < SHSIZE; ++probe) { Shadow* s = &shadow[(h + probe) & (SHSIZE - 1)]; if (!s->used) return nullptr; if (s->addr == a) return s; }
+   uintptr_t w = a >> 3; size_t h = shadow_home(w);
+   for (int probe = 0; probe < SHSIZE; probe += SHBLOCK) { Shadow* s = &shadow[(h + probe) & (SHSIZE - 1)]; if (!s->used) return nullptr; if (s->key == w) return s; }
    return nullptr;
 }
 Sync* sync_of(const void* a) {
@@ -176,31 +178,38 @@ void report_race(uintptr_t a, Shadow* s, bool write, bool atomic, uintptr_t pc, 
    if (sh->n_race >= MAXRACE) return;
    Race& r = sh->races[sh->n_race++]; r.addr = a; r.pc1 = other_pc; r.pc2 = pc; r.t1 = uint8_t(other); r.t2 = uint8_t(my_tid); r.w1 = other_write; r.w2 = write; r.a1 = other_atomic; r.a2 = atomic; r.is_static = is_static(a); r.foreign = foreign;
 }
-void access(uintptr_t a, size_t n, bool write, bool atomic, uintptr_t pc) {
-   int me = my_tid; VC& vc = thr[me].vc; ++sh->accesses;
-   for (size_t i = 0; i < n; ++i) {
-      Shadow* s = shadow_of(a + i);
-      // conflict with the last write?
-      if (s->wtid != 0xff && s->wtid != me && s->wclk > vc.c[s->wtid] && !(atomic && s->watomic)) report_race(a + i, s, write, atomic, pc, s->wtid, true, s->watomic, s->wpc);
-      if (write) {
-         for (int t = 0; t < MAXT; ++t) if (t != me && s->rclk[t] > vc.c[t] && !(atomic && (s->ratomic_mask & (1u << t)))) { report_race(a + i, s, write, atomic, pc, t, false, (s->ratomic_mask >> t) & 1, s->rpc); break; }
-         s->wtid = uint8_t(me); s->wclk = vc.c[me]; s->watomic = atomic; s->wpc = pc;
-         for (int t = 0; t < MAXT; ++t) s->rclk[t] = 0; s->ratomic_mask = 0;
-      } else {
-         s->rclk[me] = vc.c[me]; s->rpc = pc; if (atomic) s->ratomic_mask |= uint8_t(1u << me); else s->ratomic_mask &= uint8_t(~(1u << me));
-      }
+void access_word(uintptr_t a, uint8_t mask, bool write, bool atomic, uintptr_t pc) {
+   int me = my_tid; VC& vc = thr[me].vc;
+   Shadow* s = shadow_of(a);
+   if (s->wtid != 0xff && s->wtid != me && (s->wmask & mask) && s->wclk > vc.c[s->wtid] && !(atomic && s->watomic)) report_race(a, s, write, atomic, pc, s->wtid, true, s->watomic, s->wpc);
+   if (write) {
+      for (int t = 0; t < MAXT; ++t) if (t != me && (s->rmask[t] & mask) && s->rclk[t] > vc.c[t] && !(atomic && (s->ratomic_mask & (1u << t)))) { report_race(a, s, write, atomic, pc, t, false, (s->ratomic_mask >> t) & 1, s->rpc); break; }
+      if (s->wtid == me && s->wclk == vc.c[me] && s->watomic == atomic) s->wmask |= mask; else s->wmask = mask;
+      s->wtid = uint8_t(me); s->wclk = vc.c[me]; s->watomic = atomic; s->wpc = (uint32_t)pc;
+      for (int t = 0; t < MAXT; ++t) if (s->rmask[t] & mask) { s->rmask[t] &= uint8_t(~mask); if (!s->rmask[t]) s->rclk[t] = 0; }
+   } else {
+      if (s->rclk[me] == vc.c[me]) s->rmask[me] |= mask; else s->rmask[me] = mask;
+      s->rclk[me] = vc.c[me]; s->rpc = (uint32_t)pc; if (atomic) s->ratomic_mask |= uint8_t(1u << me); else s->ratomic_mask &= uint8_t(~(1u << me));
    }
 }
+void access(uintptr_t a, size_t n, bool write, bool atomic, uintptr_t pc) {
+   ++sh->accesses;
+   uintptr_t end = a + n;
+   while (a < end) { uintptr_t wbase = a & ~uintptr_t(7); unsigned lo = unsigned(a - wbase), hi = unsigned((end < wbase + 8 ? end : wbase + 8) - wbase); uint8_t mask = uint8_t(((1u << hi) - 1) & ~((1u << lo) - 1)); access_word(wbase, mask, write, atomic, pc); a = wbase + 8; }
+}
 void shadow_clear(uintptr_t a, size_t n) {
-   if (!g_active || n > (1u << 20)) return;
-   for (size_t i = 0; i < n; ++i) { Shadow* s = shadow_find(a + i); if (s) { s->wtid = 0xff; s->wclk = 0; s->watomic = 0; s->ratomic_mask = 0; for (int t = 0; t < MAXT; ++t) s->rclk[t] = 0; } }
+   if (!g_active || n > (1u << 22)) return;
+   uintptr_t end = a + n;
+   for (uintptr_t w = a & ~uintptr_t(7); w < end; w += 8) { Shadow* s = shadow_find(w); if (s) { s->wtid = 0xff; s->wclk = 0; s->watomic = 0; s->wmask = 0; s->ratomic_mask = 0; for (int t = 0; t < MAXT; ++t) { s->rclk[t] = 0; s->rmask[t] = 0; } } }
 }
 
 inline bool live() { return g_active && my_tid >= 0 && !in_rt; }
 void mem_access(const void* p, size_t n, bool write, uintptr_t pc) {
    if (!live()) return;
-   ++in_rt;
    uintptr_t a = (uintptr_t)p;
+   // the running thread's own stack: thread-private unless a pointer to it is handed to another thread, which no harness body does
+   if (a >= thr[my_tid].stack_lo && a < thr[my_tid].stack_hi) { ++sh->stack_accesses_skipped; return; }
+   ++in_rt;
    if (is_static(a) || (nranges && in_ranges(a))) {
       track(a, write);
       if (is_watched(a)) { sched_point(write ? K_WRITE : K_READ, true); if (write) ++g_progress; }
@@ -227,6 +236,7 @@ void atomic_pre(const volatile void* p, size_t n, int kind, int mo, uintptr_t pc
 }
 
 // ------------------------------------------------------------------------------------------ child life cycle
+void set_stack_bounds(Thr& t);
 void finish_child() {
    sh->nthreads = nthr; sh->done = 1;
    _exit(0);
@@ -245,10 +255,16 @@ void child_setup() {
    dl_iterate_phdr(dso_cb, nullptr);
    memset(thr, 0, sizeof thr); nthr = 1; cur = 0; my_tid = 0; thr[0].state = ST_RUNNABLE; thr[0].vc.c[0] = 1; thr[0].handle = pthread_self();
    npoint_idx = 0; g_progress = 1; nranges = 0;
+   set_stack_bounds(thr[0]);
 }
 struct Start { int tid; };
+void set_stack_bounds(Thr& t) {
+   pthread_attr_t at; void* lo = nullptr; size_t sz = 0;
+   if (pthread_getattr_np(pthread_self(), &at) == 0) { if (pthread_attr_getstack(&at, &lo, &sz) == 0) { t.stack_lo = (uintptr_t)lo; t.stack_hi = (uintptr_t)lo + sz; } pthread_attr_destroy(&at); }
+}
 void* trampoline(void* p) {
    int tid = (int)(intptr_t)p; my_tid = tid; Thr& me = thr[tid];
+   ++in_rt; set_stack_bounds(me); --in_rt;
    while (!__atomic_load_n(&me.futex, __ATOMIC_SEQ_CST)) futex(&me.futex, FUTEX_WAIT, 0);
    __atomic_store_n(&me.futex, 0, __ATOMIC_SEQ_CST);
    void* r = me.fn(me.arg);
@@ -495,7 +511,7 @@ RunResult run_child(Body body, const std::vector<uint8_t>& prefix, const std::ve
    sh->n_prefix = (int)prefix.size(); for (size_t i = 0; i < prefix.size(); ++i) { sh->prefix[i] = prefix[i]; sh->prefix_n[i] = prefix_pts ? (*prefix_pts)[i].n : 0; sh->prefix_tid[i] = prefix_pts ? (*prefix_pts)[i].tid : 0; }
    sh->n_watch = (int)g_watch.size(); for (size_t i = 0; i < g_watch.size(); ++i) sh->watch[i] = g_watch[i];
    sh->verbose = verbose; sh->lenient = lenient; sh->n_points = 0; sh->overflow_points = 0; sh->n_race = 0; sh->total_races = 0; sh->foreign_races = 0; sh->n_fail = 0; sh->n_newwatch = 0; sh->outcome_len = 0; sh->outcome[0] = 0;
-   sh->done = 0; sh->deadlock = 0; sh->divergence = 0; sh->note[0] = 0; sh->accesses = 0; sh->nthreads = 0; sh->switches_at_watched = 0;
+   sh->done = 0; sh->deadlock = 0; sh->divergence = 0; sh->note[0] = 0; sh->accesses = 0; sh->stack_accesses_skipped = 0; sh->nthreads = 0; sh->switches_at_watched = 0;
    fflush(stdout); fflush(stderr);
    RunResult r; pid_t pid = fork();
    if (pid < 0) { perror("fork"); exit(3); }
